@@ -323,6 +323,22 @@ func vpCase(t *vpToks) (res string) {
 				f := s.status(vpCluster(c), g, true)
 				out = append(out, vpStatus("P", f, p, vpCluster(c), g), vpStatus("F", f, f, vpCluster(c), g))
 			}
+		case "L":
+			c := t.i64()
+			r := &protocol.StorageRequest{RequestType: protocol.StorageFetchConsumers, Cluster: vpCluster(c), Reply: make(chan interface{})}
+			s.app.StorageChannel <- r
+			rep := <-r.Reply
+			if rep == nil {
+				out = append(out, "L NIL")
+			} else {
+				names := append([]string{}, rep.([]string)...)
+				sort.Strings(names)
+				f := []string{"L", strconv.Itoa(len(names))}
+				for _, n := range names {
+					f = append(f, vpHex(n))
+				}
+				out = append(out, strings.Join(f, " "))
+			}
 		default:
 			panic("unknown event " + ev)
 		}
